@@ -91,10 +91,10 @@ def Flow.init (v6 : Bool) (dst dport seq : Nat) : Flow :=
   { v6 := v6, dst := dst, dport := dport, state := .unknown, mss := -1, sackPermitted := false,
     tr := Tracker.init seq }
 
-/-- `Flow::update_state` -/
+/-- `Flow::update_state` (after `fix: RST takes precedence over FIN in Flow::update_state`) -/
 def Flow.updateState (f : Flow) (p : Pkt) : Flow :=
-  if p.fin then { f with state := .finSent }
-  else if p.rst then { f with state := .rstSent }
+  if p.rst then { f with state := .rstSent }
+  else if p.fin then { f with state := .finSent }
   else if f.state = .synSent ∧ p.ackf then { f with state := .established }
   else if f.state = .unknown ∧ p.syn then
     { f with state := .synSent,
@@ -166,21 +166,24 @@ deriving Repr
 
 def clearPayload (f : Flow) : Flow := { f with tr := { f.tr with payload := [] } }
 
-/-- `Stream::process_packet(packet, ts)` with `on_*_flow_data` / `on_*_out_of_order` inlined -/
+/-- the flow dispatch of `Stream::process_packet` (`packet_belongs` tests, `Flow::process_packet`, and the inlined
+    `on_*_out_of_order` / `on_*_flow_data` handlers incl. auto-cleanup) -/
+def Stream.route (s0 : Stream) (p : Pkt) : Stream × List SEv :=
+  if s0.client.packetBelongs p then
+    let (f, ooo, fired) := s0.client.processPacket p
+    let e1 := match ooo with | some (q, d) => [SEv.ooo true q d] | none => []
+    let e2 := if fired then [SEv.data true f.tr.payload] else []
+    ({ s0 with client := if fired && s0.acl then clearPayload f else f }, e1 ++ e2)
+  else if s0.server.packetBelongs p then
+    let (f, ooo, fired) := s0.server.processPacket p
+    let e1 := match ooo with | some (q, d) => [SEv.ooo false q d] | none => []
+    let e2 := if fired then [SEv.data false f.tr.payload] else []
+    ({ s0 with server := if fired && s0.acl then clearPayload f else f }, e1 ++ e2)
+  else (s0, [])
+
+/-- `Stream::process_packet(packet, ts)` -/
 def Stream.processPacket (s : Stream) (p : Pkt) : Stream × List SEv :=
-  let s0 := { s with lastSeen := p.ts }
-  let r : Stream × List SEv :=
-    if s0.client.packetBelongs p then
-      let (f, ooo, fired) := s0.client.processPacket p
-      let e1 := match ooo with | some (q, d) => [SEv.ooo true q d] | none => []
-      let e2 := if fired then [SEv.data true f.tr.payload] else []
-      ({ s0 with client := if fired && s0.acl then clearPayload f else f }, e1 ++ e2)
-    else if s0.server.packetBelongs p then
-      let (f, ooo, fired) := s0.server.processPacket p
-      let e1 := match ooo with | some (q, d) => [SEv.ooo false q d] | none => []
-      let e2 := if fired then [SEv.data false f.tr.payload] else []
-      ({ s0 with server := if fired && s0.acl then clearPayload f else f }, e1 ++ e2)
-    else (s0, [])
+  let r := Stream.route { s with lastSeen := p.ts } p
   (r.1, r.2 ++ (if r.1.isFinished then [SEv.closed] else []))
 
 /-! ### StreamFollower -/
